@@ -9,6 +9,7 @@ from ..cfg import CFG
 from ..core import AnalysisError, const_value, walk_own
 from ..tutil import np_call
 from ..defuse import MUTATORS, DefUse, Terms, show, walk_term
+from ..defuse import key as tkey
 
 EXPLANATION = (
     "Static analysis of every chunked stream and every joblib.Parallel "
@@ -573,7 +574,7 @@ def _parquet_index(ctx):
                     inc = [d for d in ds if d.kind == "aug"]
                     init = [d for d in ds if d.kind == "assign"]
                     ok = bool(inc) and all(
-                        show(T.of(d.value)).startswith("len(")
+                        tkey(T.of(d.value)).startswith("len(")
                         for d in inc) and all(
                         T.of(d.value) == ("const", 0) for d in init)
                     why = "running offset"
